@@ -83,6 +83,8 @@ func handle(line []byte) (resp []byte) {
 		return exec.Marshal(exec.Graph(&req))
 	case "label":
 		return exec.Marshal(exec.Label(&req))
+	case "tag":
+		return exec.Marshal(exec.Tag(&req))
 	case "prog":
 		return exec.Marshal(exec.Prog(&req))
 	}
